@@ -1291,7 +1291,10 @@ class FunctionScope(Scope):
                 new_scopes.append(scope)
         if not new_scopes:
             return {LEAVES_SCOPE: []}
-        all_variables = set(chain.from_iterable(new_scopes))
+        # A dict rather than a set: the order of the combined scope (and thus of
+        # everything that lists the names in a scope, such as reveal_locals()) must
+        # not depend on the hash seed.
+        all_variables = dict.fromkeys(chain.from_iterable(new_scopes))
         return {
             varname: uniq_chain(
                 scope.get(varname, [_UNINITIALIZED]) for scope in new_scopes
